@@ -29,6 +29,10 @@ type TransferOpts struct {
 	IgnoreTimes       bool
 	AlwaysChecksum    bool
 
+	// ExcludeFromDelete reports whether the filter rules exclude name, in
+	// which case --delete must not remove it. May be nil.
+	ExcludeFromDelete func(name string) bool
+
 	InfoGTE  func(rsyncopts.InfoLevel, uint16) bool
 	DebugGTE func(rsyncopts.DebugLevel, uint16) bool
 }
